@@ -102,10 +102,10 @@ Definition g_set_body (g : gobj) (b : B) := mkG (gstate g) (gdeleg g) b.
 Definition res3 := (list Ev * gobj * result)%type.
 Definition pre (l : list Ev) (r : res3) : res3 := let '(l', g, o) := r in (l ++ l', g, o).
 
-(* What a call made by the running body on its own generator object answers.  The body runs with
-   state = genStateExecuting (validate panics) — except that generatorObject.delegate sets
-   state = genStateCompleted before throwing a GetIterator failure into the body (func.go:955), and then the
-   `state == genStateCompleted` branches of next/throw/_return answer instead.  Neither changes the object. *)
+(* What a call made by the running body on its own generator object answers: the first lines of
+   next/throw/_return, evaluated at the object's current state (the call changes nothing).  The body always runs with
+   state = genStateExecuting (validate panics); since d6dd1c9 this also holds while a GetIterator failure of a yield*
+   operand is thrown into the body (delegate() used to set genStateCompleted there: finding C09-N2, repaired). *)
 Definition g_reenter (g : gobj) (c : cmd) : callres :=
   match gstate g with
   | GCompleted =>
@@ -128,7 +128,7 @@ Definition g_next_with (g : gobj) (v : V) (after : gobj -> V -> res3) : res3 :=
   | Some d =>
       let (l, r) := run_icall (istep d INext v) in
       match r with
-      | ICErr e =>   (* tryCallDelegated: delegated = nil; state = executing; step(gen.nextThrow(ex)) *)
+      | ICErr e =>   (* tryCallDelegated (state = executing during the call): delegated = nil; step(gen.nextThrow(ex)) *)
           pre l (resume (g_set_state (g_set_deleg g None) GExecuting) (BThrow e))
       | ICRes false v' d' => (l, g_set_deleg g (Some d'), ORes v' false)
       | ICRes true v' _ => pre l (after (g_set_deleg g None) v')
@@ -212,9 +212,9 @@ Definition g_step (g : gobj) (lf : leaf) : res3 :=
   | LYieldStar src w b =>
       let g1 := mkG (if w then GSuspendedYieldRes else GSuspendedYield) (gdeleg g) b in
       match src with
-      | inr e =>   (* delegate(): getIterator threw: delegated = nil; state = completed; step(gen.nextThrow(ex)) *)
-          resume (g_set_state (g_set_deleg g1 None) GCompleted) (BIterFail e)
-      | inl it =>  (* delegated = it; return g.next(_undefined) *)
+      | inr e =>   (* delegate(): state = executing; getIterator threw: delegated = nil; step(gen.nextThrow(ex)) *)
+          resume (g_set_state (g_set_deleg g1 None) GExecuting) (BIterFail e)
+      | inl it =>  (* state = executing during getIterator, then restored; delegated = it; return g.next(_undefined) *)
           g_next (g_set_deleg g1 (Some it)) undef
       end
   | LDone v b => ([], mkG GCompleted (gdeleg g) b, ORes v true)
